@@ -226,31 +226,33 @@ func govcReport(kind string, idx int, clause string, i int, desc string) {
 		}
 		fmt.Fprintf(&b, "func govcBounded%d(seed int64, n int, only int) {\n\tcases, skipped := 0, 0\n\tfor i := 0; i < n; i++ {\n\t\tif only >= 0 && i != only {\n\t\t\tcontinue\n\t\t}\n", k)
 		b.WriteString("\t\trng := rand.New(rand.NewSource(seed*1000003 + int64(i)))\n")
+		// everything from the generator call on runs under recover: generators call library code too
+		b.WriteString("\t\tfunc() {\n\t\t\tdesc := \"(panic before the inputs were built: inside the generator, which calls the library)\"\n")
+		b.WriteString("\t\t\tdefer func() {\n\t\t\t\tif r := recover(); r != nil {\n")
+		fmt.Fprintf(&b, "\t\t\t\t\tgovcReport(\"FAIL\", %d, \"panic\", i, desc+\" :: panic: \"+fmt.Sprint(r))\n", k)
+		b.WriteString("\t\t\t\t}\n\t\t\t}()\n")
 		if len(params) > 0 {
-			fmt.Fprintf(&b, "\t\t%s := %s(rng, i)\n", strings.Join(params, ", "), ct.Bounded)
+			fmt.Fprintf(&b, "\t\t\t%s := %s(rng, i)\n", strings.Join(params, ", "), ct.Bounded)
 			for _, p := range params {
-				fmt.Fprintf(&b, "\t\t_ = %s\n", p)
+				fmt.Fprintf(&b, "\t\t\t_ = %s\n", p)
 			}
 		}
 		for _, r := range reqs {
-			fmt.Fprintf(&b, "\t\tif !(%s) {\n\t\t\tskipped++\n\t\t\tcontinue\n\t\t}\n", r)
+			fmt.Fprintf(&b, "\t\t\tif !(%s) {\n\t\t\t\tskipped++\n\t\t\t\treturn\n\t\t\t}\n", r)
 		}
-		b.WriteString("\t\tcases++\n")
-		fmt.Fprintf(&b, "\t\tdesc := govcDescribe(%s)\n", strings.Join(params, ", "))
+		b.WriteString("\t\t\tcases++\n")
+		fmt.Fprintf(&b, "\t\t\tdesc = govcDescribe(%s)\n", strings.Join(params, ", "))
 		for j, e := range olds {
-			fmt.Fprintf(&b, "\t\tgovcOld%d := %s\n\t\t_ = govcOld%d\n", j, e, j)
+			fmt.Fprintf(&b, "\t\t\tgovcOld%d := %s\n\t\t\t_ = govcOld%d\n", j, e, j)
 		}
 		for j, e := range ens {
 			if e.known != "" {
-				fmt.Fprintf(&b, "\t\tgovcKnown%d := %s\n", j, e.known)
+				fmt.Fprintf(&b, "\t\t\tgovcKnown%d := %s\n", j, e.known)
 			} else {
-				fmt.Fprintf(&b, "\t\tgovcKnown%d := false\n", j)
+				fmt.Fprintf(&b, "\t\t\tgovcKnown%d := false\n", j)
 			}
-			fmt.Fprintf(&b, "\t\t_ = govcKnown%d\n", j)
+			fmt.Fprintf(&b, "\t\t\t_ = govcKnown%d\n", j)
 		}
-		b.WriteString("\t\tfunc() {\n\t\t\tdefer func() {\n\t\t\t\tif r := recover(); r != nil {\n")
-		fmt.Fprintf(&b, "\t\t\t\t\tgovcReport(\"FAIL\", %d, \"panic\", i, desc+\" :: panic: \"+fmt.Sprint(r))\n", k)
-		b.WriteString("\t\t\t\t}\n\t\t\t}()\n")
 		var args []string
 		call := ""
 		if isMethod {
